@@ -295,13 +295,29 @@ Section OpsOk.
   Qed.
 
   (** ** start-up *)
-  Lemma op_startup_ok s : Inv s -> Rok None s (fst (op_startup s)).
+  Lemma fix_blobs_ok s : Inv s -> Rok None s (fix_blobs (init s)).
   Proof.
-    intros HI. unfold op_startup. destruct (has_unreadable s); [apply Rok_init|]. cbn.
-    apply delete_unused_ok; [exact HI | | apply Forall_forall; intros d Hd; apply in_map_iff in Hd as [p [<- _]]; reflexivity].
-    generalize (debris s) as ds. intros ds. generalize (Rok_init size_of None s). generalize (init s) as r.
-    induction ds as [|d ds IH]; intros r H; cbn; [exact H|]. apply IH. apply Rok_emit; [exact H | exact I].
+    intros HI. unfold fix_blobs. cbn [init rs].
+    assert (HL := inv_legacy size_of s HI).
+    assert (G : forall ds r, (forall h c, In (DColon h c) ds -> c = h) -> Rok None s r -> Rok None s (fold_left fix_step ds r)).
+    { induction ds as [|d ds IH]; intros r Hd H; cbn [fold_left]; [exact H|].
+      apply IH; [intros h c Hin; apply (Hd h c); right; exact Hin|].
+      destruct d as [| | |h c|h]; cbn [fix_step]; try exact H.
+      - apply Rok_emit; [exact H|]. cbn. apply (Hd h c). left; reflexivity.
+      - apply Rok_emit; [exact H | exact I]. }
+    apply G; [exact HL | apply Rok_init].
   Qed.
+
+  Lemma startup_rest_ok t s0 r : Inv s0 -> Rok t s0 r -> Rok t s0 (startup_rest r).
+  Proof.
+    intros HI H. unfold startup_rest. destruct (has_unreadable (rs r)); [exact H|].
+    apply delete_unused_ok; [exact HI | | apply Forall_forall; intros d Hd; apply in_map_iff in Hd as [p [<- _]]; reflexivity].
+    generalize (debris (rs r)) as ds. intros ds. revert H. generalize r as r'.
+    induction ds as [|d ds IH]; intros r' H; cbn; [exact H|]. apply IH. apply Rok_emit; [exact H | exact I].
+  Qed.
+
+  Lemma op_startup_ok s : Inv s -> Rok None s (fst (op_startup s)).
+  Proof. intros HI. unfold op_startup. cbn [fst]. apply startup_rest_ok; [exact HI | apply fix_blobs_ok, HI]. Qed.
 
   (** ** pull *)
   Definition present (s : store) (l : layer) : Prop := bget (dhex (ldg l)) s = Some (dhex (ldg l)).
